@@ -266,6 +266,22 @@ func instantiate(q *Query) (insts []*Term) {
 	return insts
 }
 
+type framePair struct {
+	before, lo, hi *Term
+}
+
+var (
+	frameMu    sync.Mutex
+	framePairs = map[string]framePair{}
+)
+
+// registerFrame records that array constant nm equals `before` outside [lo,hi).
+func registerFrame(nm *Term, before, lo, hi *Term) {
+	frameMu.Lock()
+	framePairs[nm.Name] = framePair{before, lo, hi}
+	frameMu.Unlock()
+}
+
 // autoAxioms adds instances of the defining equations of V, P, p10 for the terms present.
 func autoAxioms(ts []*Term) []*Term {
 	var out []*Term
@@ -308,6 +324,17 @@ func autoAxioms(ts []*Term) []*Term {
 				out = append(out, mkImp(mkLe(hi, lo), mkEq(u, mkI(0))))
 				// one word
 				out = append(out, mkImp(mkEq(hi, mkAdd(lo, mkI(1))), mkEq(u, mkSelect(m, lo))))
+				if m.Op == "const" {
+					frameMu.Lock()
+					fp, ok := framePairs[m.Name]
+					frameMu.Unlock()
+					if ok {
+						// lemma V_eq with the frame of m as premise
+						before := mkV(fp.before, lo, hi)
+						out = append(out, mkImp(mkOr(mkLe(hi, fp.lo), mkGe(lo, fp.hi)), mkEq(u, before)))
+						queue = append(queue, before)
+					}
+				}
 				if m.Op == "store" {
 					j, v, m0 := m.Args[1], m.Args[2], m.Args[0]
 					below := mkV(m0, lo, hi)
